@@ -117,6 +117,7 @@ def main():
     inplace_addsub()
     sum_and_index()
     keytolist()
+    binary_ops()
     print('EXPR-COUNT ' + json.dumps(count))
     print('EXPR-JSON ' + json.dumps(fails))
 
@@ -339,6 +340,106 @@ def keytolist():
                                    'key afterwards': repr(key)})
 
 
+def binary_ops():
+    """+f, -f, f + g, f - g, f + a, a - f: value, curvature, refusal of
+    combinations that are neither convex nor concave or whose lengths do not
+    match, and no aliasing (in-place operations on the result leave the
+    operands alone and vice versa)"""
+    from cvxopt.modeling import max as mmax, min as mmin
+    x = variable(2, 'x')
+    y = variable(2, 'y')
+    w = variable(3, 'w')
+    x.value = matrix([1.0, -2.0])
+    y.value = matrix([0.5, 3.0])
+    w.value = matrix([1.0, 2.0, 3.0])
+
+    def funcs():
+        return {'affine': lambda: 2.0 * x + 1.0, 'affine1': lambda: x[0] + 3.0,
+                'convex': lambda: mmax(x, y) + x, 'concave': lambda:
+                mmin(x, y) - 1.0, 'convex1': lambda: mmax(x) + 2.0,
+                'concave1': lambda: mmin(y) - x[1], 'affine3': lambda:
+                w + 1.0, 'convex3': lambda: mmax(w, -w)}
+    curv = {'affine': 'a', 'affine1': 'a', 'convex': 'x', 'convex1': 'x',
+            'concave': 'v', 'concave1': 'v', 'affine3': 'a', 'convex3': 'x'}
+    flags_of = {'a': (True, True), 'x': (True, False), 'v': (False, True)}
+    flip = {'a': 'a', 'x': 'v', 'v': 'x'}
+
+    def close(u, v):
+        return len(u) == len(v) and all(abs(p - q) <= 1e-9 for p, q in
+                                        zip(u, v))
+
+    def bc(u, n):
+        return list(u) if len(u) == n else [u[0]] * n
+    for n1, mk1 in funcs().items():
+        f = mk1()
+        fv = list(f.value())
+        for nm, r, want, cv in (('+f', +f, fv, curv[n1]),
+                                ('-f', -f, [-t for t in fv], flip[curv[n1]]),
+                                ('f + 2.5', f + 2.5, [t + 2.5 for t in fv],
+                                 curv[n1]),
+                                ('f - 2', f - 2, [t - 2 for t in fv],
+                                 curv[n1]),
+                                ('1.5 - f', 1.5 - f, [1.5 - t for t in fv],
+                                 flip[curv[n1]]),
+                                ('3 + f', 3 + f, [3 + t for t in fv],
+                                 curv[n1])):
+            count['binary'] = count.get('binary', 0) + 1
+            if not close(list(r.value()), want) or (
+                    r._isconvex(), r._isconcave()) != flags_of[cv]:
+                fail('binop-value', {'f': n1, 'op': nm, 'value': list(
+                    r.value()), 'expected': want})
+            r *= 2.0
+            r += 1.0
+            if not close(list(f.value()), fv):
+                fail('binop-fresh', {'f': n1, 'op': nm, 'f.value() after '
+                                     'in-place operations on the result':
+                                     list(f.value()), 'before': fv})
+                f = mk1()
+        for n2, mk2 in funcs().items():
+            for sign, opn in ((1, '+'), (-1, '-')):
+                f, g = mk1(), mk2()
+                fv, gv = list(f.value()), list(g.value())
+                c2 = curv[n2] if sign > 0 else flip[curv[n2]]
+                ok_curv = 'a' in (curv[n1], c2) or curv[n1] == c2
+                ok_len = len(gv) == len(fv) or 1 in (len(gv), len(fv))
+                count['binary'] = count.get('binary', 0) + 1
+                try:
+                    r = f + g if sign > 0 else f - g
+                except (ValueError, TypeError):
+                    if ok_curv and ok_len:
+                        fail('binop-value', {'f': n1, 'op': opn, 'g': n2,
+                                             'refused': True})
+                    continue
+                if not (ok_curv and ok_len):
+                    fail('binop-value', {'f': n1, 'op': opn, 'g': n2,
+                                         'accepted': True})
+                    continue
+                n = max(len(fv), len(gv))
+                want = [a + sign * b for a, b in zip(bc(fv, n), bc(gv, n))]
+                res = curv[n1] if curv[n1] != 'a' else c2
+                if not close(list(r.value()), want) or (
+                        r._isconvex(), r._isconcave()) != flags_of[res]:
+                    fail('binop-value', {'f': n1, 'op': opn, 'g': n2,
+                                         'value': list(r.value()),
+                                         'expected': want})
+                    continue
+                r *= -2.0
+                if not close(list(f.value()), fv) or not close(
+                        list(g.value()), gv):
+                    fail('binop-fresh', {'f': n1, 'op': opn, 'g': n2,
+                                         'operands changed by': 'r *= -2'})
+                    continue
+                r = f + g if sign > 0 else f - g
+                rv = list(r.value())
+                f *= 3.0
+                g *= 0.5
+                if not close(list(r.value()), rv):
+                    fail('binop-fresh', {'f': n1, 'op': opn, 'g': n2,
+                                         'result changed by': 'f *= 3; '
+                                         'g *= 0.5', 'value': list(
+                                             r.value()), 'before': rv})
+
+
 def aliasing():
     """a sum must not share coefficient matrices with its operands: in-place
     operations on the sum leave the operands' values alone"""
@@ -357,6 +458,17 @@ def aliasing():
         f2 = A * x + g
         f2 += y
         after = list(g.value())
+        # the operand on the right of a variable that already has a scalar
+        # coefficient: x + B*x merges B into the coefficient of x
+        g2 = Bc * x
+        before2 = list(g2.value())
+        f3 = x + g2
+        f4 = 2.0 * x - g2
+        if any(abs(u - v) > 1e-12 for u, v in zip(before2, list(g2.value()))):
+            fail('addterm-alias', {'operand coefficient': nm, 'expression':
+                                   'x + B*x, 2*x - B*x', 'value of B*x '
+                                   'before': before2, 'after': list(
+                                       g2.value())})
         if any(abs(u - v) > 1e-12 for u, v in zip(before, after)):
             fail('addterm-alias', {'operand coefficient': nm,
                                    'value before': before,
